@@ -172,6 +172,26 @@ pub fn build<Data: GarnishData>(parse_root: usize, parse_tree: Vec<ParseNode>, d
         });
     }
 
+    // the tree is handed in by the caller: every link has to stay inside it
+    if parse_root >= parse_tree.len() {
+        Err(CompilerError::new_message(format!("Parse root {} is not in the parse tree", parse_root)))?;
+    }
+    for (index, node) in parse_tree.iter().enumerate() {
+        for child in [node.get_left(), node.get_right()] {
+            match child {
+                Some(child_index) if child_index >= parse_tree.len() => {
+                    Err(CompilerError::new_message(format!("Parse node {} refers to node {} which is not in the parse tree", index, child_index)))?
+                }
+                _ => (),
+            }
+        }
+    }
+
+    // safety net like the parser's walks: a proper tree needs every node only a few times,
+    // more than that means the links form a cycle
+    let max_steps = parse_tree.len() * 16 + 16;
+    let mut steps = 0;
+
     let mut nodes: Vec<Option<BuildNode<Data>>> = Vec::with_capacity(parse_tree.len());
     for _ in 0..parse_tree.len() {
         nodes.push(None);
@@ -212,6 +232,11 @@ pub fn build<Data: GarnishData>(parse_root: usize, parse_tree: Vec<ParseNode>, d
         let mut stack = vec![root_index];
 
         while let Some(node_index) = stack.pop() {
+            steps += 1;
+            if steps > max_steps {
+                Err(CompilerError::new_message(format!("Max iterations reached when building parse tree.")))?;
+            }
+
             let parse_node = match parse_tree.get(node_index) {
                 Some(node) => node,
                 None => Err(CompilerError::new_message(format!("No parse node at index {}", node_index)))?,
